@@ -145,7 +145,7 @@ def run(prop, tier, seed, args):
         if any(r["unsupported"] for r in hres):
             continue
         missing = textual - reached[hname] - optional
-        if missing and not args.only:
+        if missing and not args.only and not pending_replays and not undecided:
             rep.errors.append(f"vacuity: checks never reached in {hname}: {sorted(missing)}")
     min_ob = getattr(mod, "MIN_OBLIGATIONS", 1)
     if obligations < min_ob and not args.only and not undecided:
